@@ -40,6 +40,11 @@ def gen_case(rng, tier, idx):
         return {"kind": "diff", "aw": rng.choice([4, 5, 6, 7, 8, 9]), "dw": rng.choice([4, 8, 8, 16]),
                 "depth": rng.randint(1, 3), "cycles": 300 if tier == "quick" else 800}
     aw = rng.choice([2, 3, 4, 5, 6, 8, 10, 12, 16])
+    if idx % 60 == 31:
+        # a decoder with a hundred-odd windows (a large SoC's CSR fabric): odd counts, counts around multiples of 64
+        return {"kind": "bare", "aw": rng.choice([12, 16]), "dw": rng.choice([8, 32]), "al": 0,
+                "nsubs": rng.choice([65, 66, 97, 99, 100, 127, 129, 131, 150]), "query_between_adds": False,
+                "elaborate_between_adds": False, "cycles": 600 if tier == "quick" else 1500}
     return {"kind": "bare", "aw": aw, "dw": rng.choice([1, 4, 8, 8, 16, 32, 64, 65]),
             "al": rng.choice([0, 0, 0, 1, 2, 3]) if aw > 3 else 0,
             "nsubs": rng.choice([0, 1, 2, 3, 4, 5, 6, 17, 20, 33, 40]) if aw >= 8 else rng.choice([0, 1, 2, 3, 4, 5, 6]),
@@ -61,6 +66,8 @@ def run_bare(case, rng):
     subs, topo, rejected = [], [], []
     for i in range(case["nsubs"]):
         k = rng.randint(1, max(1, (aw - 5) if case["nsubs"] > 8 else (aw - 1)))
+        if case["nsubs"] > 60:
+            k = rng.randint(1, aw - 9)
         if rng.random() < 0.08:
             k = aw + rng.randint(0, 1)        # does not fit (or fills the decoder): a rejected add is part of the history
         sub = csr.Interface(addr_width=k, data_width=dw, path=(f"sub{i}",))
